@@ -216,3 +216,62 @@ func verifBody_C19_two_scrapes() bool {
 	verifReach("C19.two-scrapes.done", true)
 	return ok
 }
+
+// C16: an association that has already relayed datagrams reports more of them while a scrape
+// runs: whatever the interleaving, the bytes per key and direction exported afterwards are the
+// bytes reported (nothing is lost between what a scrape has read and what it resets or adds)
+func VH_C16_report_during_scrape() {
+	for rep := 0; rep < verifRepeat(40); rep++ {
+		if !verifBody_C16_report_during_scrape() {
+			return
+		}
+	}
+}
+
+func verifBody_C16_report_during_scrape() bool {
+	verifSched(1)
+	verifInstallClock(1 << 41)
+	m, _ := NewServiceMetrics(nil)
+	u := m.AddUDPNatEntry(&net.UDPAddr{IP: net.IPv4(203, 0, 113, 5), Port: 40000}, "key-3")
+	u.AddPacketFromClient("OK", 100, 40)
+	u.AddPacketFromTarget("OK", 70, 110)
+	n := 1
+	if verifNative() {
+		n = 20000
+	}
+	a, b := verifI64("cp"), verifI64("pt")
+	c, d := verifI64("tp"), verifI64("pc")
+	verifAssume(a > 0 && b > 0 && c > 0 && d > 0 && a < 1<<16 && b < 1<<16 && c < 1<<16 && d < 1<<16)
+	fromTarget := verifFlag("from-target")
+	verifPar(
+		func() {
+			for i := 0; i < 1 || (verifNative() && i < 200); i++ {
+				m.Collect(make(chan prometheus_Metric, 256))
+			}
+		},
+		func() {
+			for i := 0; i < n; i++ {
+				if fromTarget {
+					u.AddPacketFromTarget("OK", c, d)
+				} else {
+					u.AddPacketFromClient("OK", a, b)
+				}
+			}
+		},
+	)
+	m.Collect(make(chan prometheus_Metric, 256)) // a last scrape with the association still open
+	verifAdvance()
+	u.RemoveNatEntry()
+	pk := m.udpServiceMetrics.proxyCollector.dataBytesPerKey
+	var wa, wb, wc, wd int64 = 100, 40, 70, 110
+	if fromTarget {
+		wc, wd = wc+int64(n)*c, wd+int64(n)*d
+	} else {
+		wa, wb = wa+int64(n)*a, wb+int64(n)*b
+	}
+	ok := verifCounterValue(pk, "int", "c>p", "key-3") == wa && verifCounterValue(pk, "int", "p>t", "key-3") == wb &&
+		verifCounterValue(pk, "int", "p<t", "key-3") == wc && verifCounterValue(pk, "int", "c<p", "key-3") == wd
+	verifAssert("C16.report-during-scrape.bytes-all-counted", ok)
+	verifReach("C16.report-during-scrape.done", true)
+	return ok
+}
